@@ -72,6 +72,43 @@ type world struct {
 	created int64 // second of creation
 	items   []item
 	lastSec int64
+	// snaps[k]: every file of the log directory after the k-th write, and the second of that write
+	snaps []dirSnap
+}
+
+type dirSnap struct {
+	sec   int64
+	files map[string][]byte
+}
+
+func readDirAll(dir string) map[string][]byte {
+	out := map[string][]byte{}
+	es, _ := os.ReadDir(dir)
+	for _, e := range es {
+		if b, err := os.ReadFile(filepath.Join(dir, e.Name())); err == nil && !e.IsDir() {
+			out[e.Name()] = b
+		}
+	}
+	return out
+}
+
+// setDir makes dir hold exactly the given files (existing files are rewritten in place, others removed):
+// what a reader sees when the writer appended, rolled and pruned in the meantime.
+func setDir(dir string, files map[string][]byte) {
+	es, _ := os.ReadDir(dir)
+	for _, e := range es {
+		if _, ok := files[e.Name()]; !ok {
+			_ = os.Remove(filepath.Join(dir, e.Name()))
+		}
+	}
+	for n, b := range files {
+		if old, err := os.ReadFile(filepath.Join(dir, n)); err == nil && string(old) == string(b) {
+			continue
+		}
+		if err := os.WriteFile(filepath.Join(dir, n), b, 0o644); err != nil {
+			panic(err)
+		}
+	}
 }
 
 func scratchRoot() string {
@@ -186,6 +223,7 @@ func build(root string, cfg Config, hist []int) (*world, string) {
 		}
 		w.items = append(w.items, its...)
 		w.lastSec = sec
+		w.snaps = append(w.snaps, dirSnap{sec, readDirAll(dir)})
 	}
 	if cl, ok := wr.(interface{ Close() error }); ok {
 		_ = cl.Close()
@@ -346,6 +384,43 @@ func (w *world) checkUncut(c *props.Ctx, hist []int, pairs bool) *failure {
 		if f := w.judge(q, got, err, pan, ret, byKey, ""); f != nil {
 			return f
 		}
+	}
+	// a LIVE searcher: it answered a query after the k-th write, then the writer went on (appending, rolling,
+	// pruning the file the searcher remembers); every later query on it must still be answered from the files
+	// that exist now. Only directory states that lost a file since then differ from the pair pass below.
+	final := readDirAll(w.dir)
+	for k := 0; k+1 < len(w.snaps); k++ {
+		lost := false
+		for n := range w.snaps[k].files {
+			if _, ok := final[n]; !ok {
+				lost = true
+			}
+		}
+		if !lost {
+			continue
+		}
+		scratch, err := os.MkdirTemp(filepath.Dir(w.dir), "c17-live-")
+		if err != nil {
+			panic(err)
+		}
+		sk := w.snaps[k].sec
+		for _, touch := range []query{{Kind: 1, Begin: sk, MaxLines: 1}, {Kind: 0, Begin: sk, End: sk}, {Kind: 1, Begin: w.created, MaxLines: 1}} {
+			for _, q := range w.queries(false) {
+				setDir(scratch, w.snaps[k].files)
+				sr := w.newSearcher(scratch)
+				if _, err, pan := runQuery(sr, touch); err != nil || pan != nil {
+					break
+				}
+				setDir(scratch, final)
+				got, err, pan := runQuery(sr, q)
+				c.R.Evaluations++
+				if f := w.judge(q, got, err, pan, ret, byKey, fmt.Sprintf(" on a searcher that answered %v after write #%d, before %d further writes", touch, k+1, len(w.snaps)-1-k)); f != nil {
+					os.RemoveAll(scratch)
+					return f
+				}
+			}
+		}
+		os.RemoveAll(scratch)
 	}
 	if pairs {
 		firsts := w.queries(false)
